@@ -436,6 +436,26 @@ class World:
                                                         "b_val": C(t)})
                 return
             objs.append(("twin(s%d)" % sid, t))
+        # equality itself is a query: for every pair of live objects, a == b must be what it is for
+        # freshly built objects of the same current values (cached lengths etc. must not leak into it)
+        live = [(nm, o, (self.twin_path(self.paths[int(nm[1:])]) if nm[0] == "p" else
+                         self.twin_seg(self.segs[int(nm[1:])])))
+                for nm, o in objs if nm[0] in "ps"]
+        for i in range(len(live)):
+            for j in range(i + 1, len(live)):
+                (na, a, ta), (nb, b, tb) = live[i], live[j]
+                if type(a) is not type(b):
+                    continue
+                try:
+                    got = ((a == b) is True, (b == a) is True, (a != b) is True)
+                    want = ((ta == tb) is True, (tb == ta) is True, (ta != tb) is True)
+                except Exception:
+                    continue
+                if got != want:
+                    self.violate(idx, "other-query", "eq",
+                                 {"a": na, "b": nb, "impl": list(got), "fresh": list(want),
+                                  "a_val": C(a), "b_val": C(b)})
+                    return
         hs = []
         for name, o in objs:
             try:
@@ -1090,6 +1110,8 @@ class World:
             raise HarnessError("unknown segment query %r" % q)
         if oc[0] == "e":
             self.bump(self.faults, "natural_failure")
+        if q in ("length", "length_tol", "length_t", "ilength", "length_fail"):
+            self.hash_sweep(idx)
         entry["out"] = self._render(oc) if oc[0] != "i" else {"interrupted": True}
         return "ok"
 
@@ -1337,6 +1359,8 @@ class World:
             self.probe("interrupt_inside_path_query" if q != "length_fail" else "interrupt")
         if warmed and oc[0] == "v":
             pr.warm = True
+        if warmed:
+            self.hash_sweep(idx)      # a cache was (re)filled: equality/hash of everything live must not notice
         entry["out"] = self._render(oc) if oc[0] != "i" else {"interrupted": True}
         return "ok"
 
